@@ -861,3 +861,21 @@ def _m_first_element_only(mod):
         return False
 
     return mod if replace_in_func(mod, "build_instance_tree", edit) else None
+
+
+@SPEC.mutant("class-modification accumulator created once for all local classes", TREE, "R08.10", "created per iteration")
+def _m_hoisted_accumulator(mod):
+    def edit(fn):
+        for b in ast.walk(fn):
+            for f_ in ("body", "orelse"):
+                lst = getattr(b, f_, None)
+                if isinstance(lst, list):
+                    for i, lp in enumerate(lst):
+                        if isinstance(lp, ast.For) and norm(lp.iter).endswith(".classes.items()"):
+                            for j, st in enumerate(lp.body):
+                                if isinstance(st, ast.Assign) and norm(st.value) == "ast.ClassModification()":
+                                    lst.insert(i, lp.body.pop(j))
+                                    return True
+        return False
+
+    return mod if replace_in_func(mod, "build_instance_tree", edit) else None
